@@ -306,6 +306,8 @@ def set_hyper(opt, gi, g, key, idx):
         grp["betas"] = (g["b1"][idx], grp["betas"][1])
     elif key == "wd":
         grp["weight_decay"] = g["wd"][idx]
+    elif key == "freq":
+        grp["precondition_frequency"] = int(idx)          # the value itself, not an index
     elif key == "lr":
         if isinstance(grp["lr"], torch.Tensor):
             grp["lr"].fill_(g["lr"][idx])          # what torch's LR schedulers do with a tensor learning rate
@@ -326,4 +328,6 @@ def hyper_equals(opt, gi, g, key, idx) -> bool:
         return grp["weight_decay"] == g["wd"][idx]
     if key == "lr":
         return float(grp["lr"]) == g["lr"][idx]
+    if key == "freq":
+        return grp["precondition_frequency"] == idx
     raise KeyError(key)
